@@ -2,6 +2,7 @@
 Engine A: the bilinear form of every output slot of the iCommutator / ACommutator kernels and
 the SUTrace loop are extracted for d=2..6 and compared with i[A,B], {A,B}, Tr(AB) expanded over
 the basis extracted from the conversion table (C01)."""
+from guarded import same, explain
 from astdb import AnalysisBroken
 from interp import Interp, Obj, Cell, Thrown, ITE
 from kernels import make_suv
@@ -76,7 +77,7 @@ def check_tables(db, rep, tier):
                     if len(writes.get(k, [])) != 1:
                         rep.fail(rule, site, loc, 'slot %d written exactly once' % k, 'written %d times' % len(writes.get(k, [])), cf['name'])
                         continue
-                    if isinstance(got, Poly) and got.equals(want):
+                    if same(got, want):
                         rep.ok(rule)
                         if k == d * d - 1:
                             rep.sample(rule, '%s d=%d slot %d: %s' % (op, d, k, str(got)[:200]))
